@@ -54,6 +54,14 @@ def make_suspicious(rng, in_formula):
     text = rng.choice([' ', ' and ', '; ']).join(parts) + rng.choice(SUFFIX)
     if in_formula:
         text = '=' + text
+    elif rng.random() < 0.12:
+        # a long note (a cell holds up to 32767 characters): the fragment stands far behind the start, or straddles a round offset
+        filler = 'lorem ipsum dolor sit amet, ' * 1200
+        at = rng.choice([255, 1024, 4096, 8190, 8192, 8200, 16384, 20000, 32000 - len(text)])
+        body = text
+        text = (filler[:at - rng.choice([0, 3, len(body) // 2])] + ' . ' + body + ' . ' + filler)[:32700]
+        if body not in text:
+            text = filler[:at] + ' . ' + body
     return text, frags
 
 
